@@ -23,11 +23,30 @@ CLAIMS = {
                 'and results that share rule stores with the input never write them (COW). That the two passes compute exactly the useful states is not decided.',
         'note': 'trusted: clang 14 AST, exporter; frozen exception: GetCandidateTree keeps one rule per new state by design',
     },
+    'C04': {
+        'text': 'Decides the numbering discipline both tree simulations rest on: in TranslateDownward/TranslateUpward and the callers every stored state crosses the state index exactly once '
+                '(no double translation, no untranslated state reaching an LTS node or partition block; kinds inferred from typed sources through locals and local-struct fields), '
+                'auxiliary nodes come from separate counters, and the returned relation is built from the LTS simulation and the very map that numbered the LTS with the same size. '
+                'That the LTS encoding and the engine yield the greatest simulation is not decided (see C16).',
+        'note': 'trusted: clang 14 AST, exporter; kind inference is flow-insensitive and intra-procedural, unresolved kinds are unknown (never reported)',
+    },
+    'C05': {
+        'text': 'Decides the structural chain Reduce relies on: the state count given to the simulation is the count of this automaton (BuildStateIndex counter), the quotient projection is taken on every path only after '
+                'RestrictToSymmetric() from the relation computed on *this, CollapseStates gets that projection map and the result derives from it; each state crosses the index once (KIND); COW. '
+                'Language preservation and size monotonicity as such are not decided.',
+        'note': 'trusted: clang 14 AST/CFG, exporter',
+    },
     'C07': {
         'text': 'Decides, for both BDD encodings, the dispatch clauses (3 + 4 cases, delegation of the bottom-up downward variant with an equivalent InclParam on '
                 'sanitised operands and a simulation computed on their union, default throws => unimplemented selections raise an exception) and comparator duality of '
                 'the upward/downward functors as instantiated for the BDD cores. Equality with the explicit verdict is not decided.',
         'note': 'trusted: clang 14 AST/CFG, exporter, flags->entity table',
+    },
+    'C08': {
+        'text': 'Decides structural necessary conditions for the BDD-encoded operations: both operands contribute final states and rules on every return of the four Union/UnionDisjointStates functions '
+                '(shared- and distinct-table branches; bottom-up nullary MTBDD unioned), product pairs/keys keep the operands apart and finality needs both components in both Intersections and their apply functors, '
+                'first visits are enqueued in the BDD trimming worklists, and the product state counter is initialised. Language preservation is not decided.',
+        'note': 'trusted: clang 14 AST/CFG, exporter; accepted idiom: top-down automata that share a transition table already share their rules',
     },
     'C09': {
         'text': 'Decides structural necessary conditions of exact NFA inclusion: dispatch (7 cases: functor, search order, comparator, normal-form relation; union of the '
@@ -46,6 +65,17 @@ CLAIMS = {
                 '(state->cluster map, cluster, tuple set) reached through a shared_ptr uses a pointer that is Unique (from unique*()), Fresh or guarded by .unique(); '
                 'the unique*() functions clone when shared; hash-consed tuples are never mutated. A necessary condition of copy isolation; independence from process history in general is not decided.',
         'note': 'trusted: clang 14 AST, exporter; provenance analysis is intra-procedural (parameters/members/elements are Shared, unresolved is unknown and only costs the floor)',
+    },
+    'C14': {
+        'text': 'Decides that renaming writes exactly translated values into the destination: in ReindexStates (tree, NFA, both BDD cores) and CollapseStates every state handed to the destination '
+                '(final/start states, rule parents, children, successors) is the state index applied once to a stored state; the destination is written only through unique*() handles (COW). '
+                'Image equality as a set statement is not decided.',
+        'note': 'trusted: clang 14 AST, exporter',
+    },
+    'C19': {
+        'text': 'Decides only the mechanism named in the anchors: numbering enters through translators, so no state is translated twice or not at all (KIND), the simulation result is indexed by the numbering map (SIMMAP), '
+                'and inclusion operands are renumbered by one shared counter with the map cleared in between (DISPATCH/sanitiser). The metamorphic laws themselves are not decided.',
+        'note': 'trusted: clang 14 AST/CFG, exporter',
     },
     'C20': {
         'text': 'Decides named undefined-behaviour classes on every path of every function body (incl. template instantiations): '
